@@ -118,7 +118,7 @@ class Analyzer:
     def _prov_inst(self, fn, ins, binding, memo, depth):
         op = ins.op
         if op == "alloca":
-            return frozenset([("local",)])
+            return frozenset([("local", fn.name, ins.id)])
         if op in ("getelementptr",):
             return self.prov(fn, ins.ops[0], binding, memo, depth + 1)
         if op in ("bitcast", "addrspacecast", "inttoptr", "ptrtoint", "freeze"):
@@ -185,6 +185,34 @@ class Analyzer:
         eff = Effects()
         binding = {k: frozenset([("earg", k)]) for k in range(len(entry.args))}
         self._walk(entry, binding, eff, [entry.dname], set(own_eargs), stop_at, 0)
+        # stores through a pointer that was loaded back from a purely local cell: local as long as everything ever stored into a
+        # local cell on this entry's call tree is itself local (an address of a local, a constant, or such a loaded pointer advanced);
+        # one shared pointer parked in a local cell and the deferred stores count as writes to shared memory again
+        own = set(own_eargs)
+
+        cells = getattr(eff, "local_cell_values", {})
+
+        def cell_ok(cell, seen):
+            if cell in seen:
+                return True
+            seen.add(cell)
+            return all(harmless(vv, seen) for vv in cells.get(cell, []))
+
+        def harmless(vv, seen):
+            for a in vv:
+                if a[0] in ("local", "const"):
+                    continue
+                if a[0] == "loaded" and a[1:] and all(x[0] == "local" for x in a[1:]):
+                    if all(cell_ok(x, seen) for x in a[1:]):
+                        continue
+                    return False
+                if a[0] == "earg" and a[1] in own:
+                    continue
+                return False
+            return True
+        for w in getattr(eff, "deferred_local", []) or []:
+            if not all(all(cell_ok(x, set()) for x in a[1:]) for a in w["prov"]):
+                eff.writes.append(w)
         return eff
 
     def _walk(self, fn, binding, eff, chain, own, stop_at, depth):
@@ -214,6 +242,19 @@ class Analyzer:
                     continue
                 pv = self.prov(fn, ins.ops[1], binding, memo)
                 sh = _atoms_shared(pv, own)
+                # what is stored into purely local cells (a cursor `p = &local_array[0]`, later advanced through a reference to it):
+                # kept so that a pointer loaded back from a local cell can be told local when nothing else was ever put there
+                if pv and all(a[0] == "local" for a in pv):
+                    vv = self.prov(fn, ins.ops[0], binding, memo)
+                    if not hasattr(eff, "local_cell_values"):
+                        eff.local_cell_values = {}
+                    for cell in pv:
+                        eff.local_cell_values.setdefault(cell, []).append(vv)
+                if sh and all(a[0] == "loaded" and a[1:] and all(x[0] == "local" for x in a[1:]) for a in sh):
+                    if not hasattr(eff, "deferred_local"):
+                        eff.deferred_local = []
+                    eff.deferred_local.append({"kind": "store", "prov": sh, "where": ins.where(), "fn": fn.dname, "chain": list(chain)})
+                    continue
                 if sh:
                     # guarded initialisation of a function-local static
                     if all(a[0] == "global" and self.mod.gd(a[1]) in guards for a in sh):
